@@ -171,8 +171,12 @@ func (x *Exec) fltConst(v constant.Value, is32 bool) string {
 	if is32 {
 		sort, pfx = "F32", "f32"
 	}
+	// a Go floating-point constant is a finite number: it is not NaN
+	nan := x.decls.Fun(pfx+".isnan", []string{sort}, "Bool")
 	if f == 0 {
-		return x.decls.Const(pfx+".zero", sort)
+		z := x.decls.Const(pfx+".zero", sort)
+		x.ensurePre(not(app(nan, z)))
+		return z
 	}
 	key := fmt.Sprintf("%s!%v", pfx, f)
 	if n, ok := x.fltConsts[key]; ok {
@@ -181,6 +185,16 @@ func (x *Exec) fltConst(v constant.Value, is32 bool) string {
 	n := fmt.Sprintf("%s.c%d", pfx, len(x.fltConsts)+1)
 	x.decls.Const(n, sort)
 	x.fltConsts[key] = n
+	x.ensurePre(not(app(nan, n)))
+	// the sign of a literal is known
+	lt := x.decls.Fun(pfx+".lt", []string{sort, sort}, "Bool")
+	z := x.decls.Const(pfx+".zero", sort)
+	x.ensurePre(not(app(nan, z)))
+	if f > 0 {
+		x.ensurePre(app(lt, z, n))
+	} else {
+		x.ensurePre(app(lt, n, z))
+	}
 	return n
 }
 
@@ -790,16 +804,26 @@ func (x *Exec) floatAxioms() []string {
 	var out []string
 	for _, p := range [][2]string{{"f32", "F32"}, {"f64", "F64"}} {
 		pfx, s := p[0], p[1]
-		if _, ok := x.decls.set[pfx+".lt"]; !ok {
+		_, hasLt := x.decls.set[pfx+".lt"]
+		_, hasEq := x.decls.set[pfx+".eq"]
+		if !hasLt && !hasEq {
 			continue
 		}
 		x.decls.Fun(pfx+".isnan", []string{s}, "Bool")
 		lt, nan := pfx+".lt", pfx+".isnan"
+		if !hasLt {
+			out = append(out, fmt.Sprintf("(assert (forall ((a %s)) (= (%s.eq a a) (not (%s a)))))", s, pfx, nan))
+			continue
+		}
 		out = append(out,
 			fmt.Sprintf("(assert (forall ((a %s) (b %s)) (=> (%s a b) (not (%s b a)))))", s, s, lt, lt),
 			fmt.Sprintf("(assert (forall ((a %s) (b %s) (c %s)) (=> (and (%s a b) (%s b c)) (%s a c))))", s, s, s, lt, lt, lt),
 			fmt.Sprintf("(assert (forall ((a %s) (b %s) (c %s)) (=> (and (not (%s a)) (not (%s b)) (not (%s c)) (not (%s a b)) (not (%s b c))) (not (%s a c)))))", s, s, s, nan, nan, nan, lt, lt, lt),
 			fmt.Sprintf("(assert (forall ((a %s) (b %s)) (=> (%s a b) (and (not (%s a)) (not (%s b))))))", s, s, lt, nan, nan))
+		if _, ok := x.decls.set[pfx+".eq"]; ok {
+			// IEEE: x == x holds exactly for the values that are not NaN (the idiom `if d != d`)
+			out = append(out, fmt.Sprintf("(assert (forall ((a %s)) (= (%s.eq a a) (not (%s a)))))", s, pfx, nan))
+		}
 	}
 	return out
 }
